@@ -9,7 +9,10 @@ Record edit := mkEdit { e_old : text; e_new : text; e_merging : bool }.
 Record ustate := mkU { u_buf : text; u_undo : list edit; u_redo : list edit }.
 
 Inductive uop :=
-| OCmd (after : text) (char_insert : bool)   (* a command that is not u / <c-r>: the text it leaves *)
+| OCmd (pre : option text) (after : text) (char_insert : bool)
+    (* a command that is not u / <c-r>: the text it leaves. [pre] is the text
+       [handle_block_insert] left just before the command ran, when leaving a
+       block insert copied the typed text to the other lines of the block *)
 | OUndo
 | ORedo.
 
@@ -29,14 +32,25 @@ Definition handle_edit (undo : list edit) (before after : text) : list edit :=
     end
   else mkEdit before after false :: undo.
 
-(** [LineBuf::exec_cmd] as far as text and stacks are concerned *)
+(** [handle_block_insert]: the copies are made in place and the newest record is
+    made to cover them; with no record there is nothing to copy *)
+Definition amend (s : ustate) (pre : option text) : ustate :=
+  match pre, u_undo s with
+  | Some p, e :: l => mkU p (mkEdit (e_old e) p (e_merging e) :: l) (u_redo s)
+  | _, _ => s
+  end.
+
+(** [LineBuf::exec_cmd] as far as text and stacks are concerned: a command
+    that is not u / <c-r> and leaves the text [after] *)
+Definition cmd_step (s : ustate) (after : text) (ci : bool) : ustate :=
+  let undo1 := if top_merging (u_undo s) && negb ci then stop_merge (u_undo s) else u_undo s in
+  let undo2 := if text_eqb (u_buf s) after then undo1 else handle_edit undo1 (u_buf s) after in
+  let undo3 := if ci then start_merge undo2 else undo2 in
+  mkU after undo3 [].                                  (* clear_redos *)
+
 Definition ustep (s : ustate) (o : uop) : ustate :=
   match o with
-  | OCmd after ci =>
-    let undo1 := if top_merging (u_undo s) && negb ci then stop_merge (u_undo s) else u_undo s in
-    let undo2 := if text_eqb (u_buf s) after then undo1 else handle_edit undo1 (u_buf s) after in
-    let undo3 := if ci then start_merge undo2 else undo2 in
-    mkU after undo3 []                                  (* clear_redos *)
+  | OCmd pre after ci => cmd_step (amend s pre) after ci
   | OUndo =>
     let undo1 := if top_merging (u_undo s) then stop_merge (u_undo s) else u_undo s in
     match undo1 with
